@@ -1,11 +1,14 @@
 (* C16 — string constraints (platform, extras) form a sound set algebra.
    Model: Model/Generic.v (every class and operation, incl. the substring operators the code branches on).
-   Proved here: inversion (both readings) and the clause-level and conjunction-level meets/joins on the
-   == / != fragment.  The union-level distribution/de-duplication code (UnionConstraint.intersect/union) and the
-   containment/overlap answers are decided by correspondence (model = implementation, structurally, on every
-   generated pair) and by the oracle; not yet by theorems. *)
+   Proved here: inversion for every shape (single-valued reading; conjunctions also in the extras reading); intersection
+   and union for every shape — clauses, conjunctions and unions on either side, through the distribution, de-duplication
+   and early exits of UnionConstraint.intersect / UnionConstraint.union — on the == / != fragment of the single-valued
+   reading ([Fc]); the union level is proved for any class of members on which the member-level meet and join are exact
+   (Proofs/GenericUnion.v), so extending the fragment only needs member-level facts.  Not proved: the substring operators
+   (finding D35 lives there), the extras reading at union level, and the containment/overlap answers; those are decided
+   by correspondence (model = implementation, structurally, on every generated pair) and by the oracle. *)
 From Coq Require Import List Bool String.
-From PC Require Import Base.Result Model.Generic Proofs.GenericProofs.
+From PC Require Import Base.Result Model.Generic Proofs.GenericProofs Proofs.GenericUnion.
 Import ListNotations.
 
 (* full statement, kept visible *)
@@ -61,3 +64,37 @@ Example C16_example :
   exists a b r, parse_g false "!=linux, !=win32" = Ok a /\ parse_g false "darwin || linux" = Ok b /\
     g_intersect a b = Ok r /\ g_str r = "darwin"%string.
 Proof. do 3 eexists. repeat split; vm_compute; reflexivity. Qed.
+
+(* Proved: the three operations, every shape, on the == / != fragment of the single-valued reading.
+   [Fc c]: every clause of c is '== v' or '!= v' on a non-extra variable, conjunctions hold != clauses only (what
+   MultiConstraint admits), unions are non-empty. *)
+Theorem C16_intersect_exact : forall x a b r, Fc a -> Fc b -> g_intersect a b = Ok r -> sat r x = sat a x && sat b x.
+Proof. exact g_intersect_F. Qed.
+Print Assumptions C16_intersect_exact.
+Theorem C16_union_exact : forall x a b r, Fc a -> Fc b -> g_union a b = Ok r -> sat r x = sat a x || sat b x.
+Proof. exact g_union_F. Qed.
+Print Assumptions C16_union_exact.
+Theorem C16_invert_exact : forall x c r, g_invert c = Ok r -> sat r x = negb (sat c x).
+Proof. exact g_invert_exact. Qed.
+Print Assumptions C16_invert_exact.
+(* the union level by itself, for any class P of members with an exact member-level meet / join *)
+Theorem C16_union_level_intersect : forall x (P : gs -> Prop),
+  (forall a b r, P a -> P b -> gs_intersect a b = Ok r -> gs_sat r x = gs_sat a x && gs_sat b x /\ P r) ->
+  (forall mx l a, P (SMulti mx l) -> In a l -> P (SAtom a)) ->
+  forall l other r, Forall P l -> (match other with GS s => P s | GU l' => Forall P l' end) ->
+  union_intersect l other = Ok r -> sat r x = existsb (fun s => gs_sat s x) l && sat other x.
+Proof. exact union_intersect_exact. Qed.
+Print Assumptions C16_union_level_intersect.
+Theorem C16_union_level_union : forall x (P : gs -> Prop),
+  (forall a b u, P a -> P b -> gs_union a b = Ok u -> sat u x = gs_sat a x || gs_sat b x) ->
+  forall l other r, l <> [] -> Forall P l -> (match other with GS s => P s | GU l' => Forall P l' /\ l' <> [] end) ->
+  union_union l other = Ok r -> sat r x = existsb (fun s => gs_sat s x) l || sat other x.
+Proof. exact union_union_exact. Qed.
+Print Assumptions C16_union_level_union.
+Example C16_fragment_example :
+  exists a b, parse_g false "!=linux, !=win32 || ==cygwin" = Ok a /\ parse_g false "darwin || linux" = Ok b /\ Fc a /\ Fc b.
+Proof.
+  do 2 eexists. split; [vm_compute; reflexivity|]. split; [vm_compute; reflexivity|]. split.
+  - split; [|discriminate]. repeat constructor.
+  - split; [|discriminate]. repeat constructor.
+Qed.
